@@ -728,7 +728,18 @@ def sys_cancel_cleanup():
     """C06 / C02 / C10 with handlers that need awaited clean-up after being cancelled (try / finally with awaits): whoever cancelled them
     (their own timeout, a parent's timeout, stop()) has to wait until they are really done before anything else may start"""
     out = []
-    for src, cl, nh, tgt, par in itertools.product(['own', 'parent', 'stop'], [150, 400], [1, 2], ['b1', 'b2'], [False, True]):
+    for src, cl, nh, tgt, par in itertools.product(['own', 'parent', 'stop', 'parent_par'], [150, 400], [1, 2], ['b1', 'b2'], [False, True]):
+        if src == 'parent_par':
+            # the awaited child runs two handlers on a parallel_handlers bus; the one that is *not* awaited first needs the clean-up time
+            if tgt == 'b1' or par:
+                continue
+            scripts = {'H1': {'R': [['d', 'b2', 'C'], ['a', 0]], 'L': [], 'M': []}, 'H2': {'R': [['s', 1]], 'L': [['s', 1]], 'M': []},
+                       'C1': {'C': [['s', 50]], 'M': []}, 'C2': {'C': [['cl', cl], ['s', 50]], 'M': []}}
+            handlers = [typed('b1', 'R', 'H1', hid='h1')] + ([typed('b1', 'R', 'H2', hid='h2')] if nh == 2 else [])
+            handlers += [typed('b1', 'L', 'H2', hid='hl'), typed('b2', 'C', 'C1', hid='c1'), typed('b2', 'C', 'C2', hid='c2'), typed('b2', 'M', 'C1', hid='hm')]
+            d = [['d', 'b1', 'R'], ['d', 'b1', 'L'], ['d', 'b2', 'M'], ['a', 0], ['s', 800], ['idle', 'b1', 2000], ['idle', 'b2', 2000]]
+            out.append(scn([bus('b1'), bus('b2', parallel=True)], handlers, scripts, [d], events={'R': {'timeout': 5}}, horizon=8000, tag='cancel_cleanup'))
+            continue
         if src == 'own':
             scripts = {'H1': {'R': [['cl', cl], ['s', 50]], 'L': [], 'M': []}, 'H2': {'R': [['s', 1]], 'L': [['s', 1]], 'M': []}}
             events = {'R': {'timeout': 5}}
@@ -767,6 +778,37 @@ def sys_hist_fwd():
     return out
 
 
+def sys_stop_clear():
+    """C16: stop(clear=True) / stop(timeout=...) from ordinary code while a handler of *another* bus is mid-flight (and holds the global
+    lock for a long time): stop() must still return within its bound"""
+    out = []
+    for clear, tmo, hold, at, backlog, used in itertools.product([True, False], [None, 0, 20], [300, 900], [3, 50], [0, 2], [True, False]):
+        scripts = {'S1': {'R': [['s', hold]], 'L': []}, 'S2': {'M': [['s', 2]], 'L': []}}
+        handlers = [wild('b1', 'S1', hid='h1'), wild('b2', 'S2', hid='h2')]
+        d1 = [['d', 'b1', 'R'], ['a', 0], ['idle', 'b1', 3000]]
+        d2 = ([['d', 'b2', 'L'], ['a', 0]] if used else []) + [['s', at]] + [['d', 'b2', 'M']] * backlog + [['stop', 'b2', tmo, clear], ['s', 1500]]
+        out.append(scn([bus('b1'), bus('b2')], handlers, scripts, [d1, d2], horizon=8000, tag='stop_clear'))
+    return out
+
+
+def sys_idle_target():
+    """C05 / C04: the awaited child goes to a *different* bus whose run loop is running and idle (blocked in queue.get()), while a bystander
+    event is already held by a third bus's run loop waiting for the lock: the child must be processed inline, before the bystander"""
+    out = []
+    for pre, order, warm, grand, nby in itertools.product([0, 2], ['fwd', 'rev'], [True, False], [False, True], [1, 2]):
+        c_ops = ([['d', 'b3', 'G'], ['a', 0]] if grand else []) + [['y', 1]]
+        scripts = {'S1': {'R': ([['s', pre]] if pre else []) + [['d', 'b3', 'C'], ['a', 0], ['y', 1]], 'W': []},
+                   'S2': {'S': [['s', 1]], 'W': []}, 'S3': {'C': c_ops, 'G': [], 'W': []}}
+        handlers = [wild('b1', 'S1', hid='h1'), wild('b2', 'S2', hid='h2'), wild('b3', 'S3', hid='h3')]
+        d1 = ([['d', 'b3', 'W'], ['a', 0], ['d', 'b2', 'W'], ['a', 1], ['s', 150]] if warm else []) + [['d', 'b1', 'R'], ['a', 2 if warm else 0],
+                                                                                                  ['idle', 'b1', 2000], ['idle', 'b2', 2000], ['idle', 'b3', 2000]]
+        d2 = [['s', (151 if warm else 0) + (1 if pre else 0)]] + [['d', 'b2', 'S']] * nby
+        x = scn([bus('b1'), bus('b2'), bus('b3')], handlers, scripts, [d1, d2], horizon=6000, tag='idle_target')
+        x['busorder'] = order
+        out.append(x)
+    return out
+
+
 def gen_wal(seed):
     rng = random.Random(seed)
     nb = rng.choice([1, 2, 2, 3])
@@ -795,7 +837,18 @@ def gen_wal(seed):
         if rng.random() < 0.3:
             scripts['T_' + b] = {'W1': [['ret', 'i1']], 'W2': [['raise']]}
             handlers.append(typed(b, rng.choice(['W1', 'W2']), 'T_' + b, rng.choice(['sync', 'async'])))
-    if nb > 1 and rng.random() < 0.6:
+    if nb == 3 and rng.random() < 0.5:
+        # a forwarding chain over three WAL buses: the event's path keeps growing between the buses' WAL writes
+        order = rng.sample(names, 3)
+        for b in buses:
+            b['wal'] = True
+        for a, c in zip(order, order[1:]):
+            f = fwd(a, c)
+            if rng.random() < 0.5:
+                handlers.insert(0, f)
+            else:
+                handlers.append(f)
+    elif nb > 1 and rng.random() < 0.6:
         a, c = rng.sample(names, 2)
         f = fwd(a, c)
         if rng.random() < 0.5:
@@ -927,6 +980,8 @@ def gen_timeout_par(seed):
 
 
 FAMILIES = {
+    'idle_target': ('sys', sys_idle_target),
+    'stop_clear': ('sys', sys_stop_clear),
     'cancel_cleanup': ('sys', sys_cancel_cleanup),
     'hist_fwd': ('sys', sys_hist_fwd),
     'lock_wait': ('sys', sys_lock_wait),
@@ -971,6 +1026,13 @@ def _forms(s, k):
     return s
 
 
+def _created(s, k):
+    """every few scenarios (without bounded histories, whose trimming is by age) create their events with decreasing creation times"""
+    if k % 5 == 4 and 'created' not in s and not any(b.get('maxhist') for b in s['buses']):
+        s['created'] = 'rev'
+    return s
+
+
 def _busorder(s, k):
     """the iteration order of EventBus.all_instances (which bus's queue an inline drain visits first) is part of the scenario"""
     if len(s.get('buses', [])) > 1 and 'busorder' not in s:
@@ -982,11 +1044,11 @@ def generate(name, seed=0, count=None, stride=1):
     kind, fn = FAMILIES[name]
     if kind == 'sys':
         s = fn()
-        s = [_forms(_busorder(x, i + seed), i + seed) for i, x in enumerate(s)]
+        s = [_created(_forms(_busorder(x, i + seed), i + seed), i + seed) for i, x in enumerate(s)]
         if stride > 1:
             s = s[seed % stride::stride]
         if count is not None and len(s) > count:
             step = len(s) / float(count)
             s = [s[int(i * step)] for i in range(count)]
         return s
-    return [_forms(_busorder(fn(seed * 1000003 + i), (seed * 1000003 + i) // 3), seed * 1000003 + i) for i in range(count or 100)]
+    return [_created(_forms(_busorder(fn(seed * 1000003 + i), (seed * 1000003 + i) // 3), seed * 1000003 + i), seed * 1000003 + i) for i in range(count or 100)]
